@@ -270,12 +270,42 @@ Definition split_guard (rs : list rule) : bool * list rule :=
 
 Definition no_omit (rs : list rule) : bool := forallb (fun r => negb (is_omit r)) rs.
 
-(* every value passing [a] passes [d], whatever the oracle *)
+(* The enumerations behind gleece's custom enum validators (definitions/enums.go:
+   SecuritySchemeType, SecuritySchemeIn; OpenAPI 3 spells them exactly so, and the spec
+   generators copy the configured value verbatim).  A user is promised the enumeration, so
+   [declared_schema] states it as [ROneof]; the running code decides it by a registered
+   function, i.e. an oracle-decided [RPred].  [enum_claims] is what is claimed about those
+   oracle rules: they accept NOTHING outside the listed spellings (a case variant such as
+   "ApiKey" or "Header" is outside).  The theorems carry the claim as the hypothesis
+   [ConfigProofs.enum_sound o]; the check evaluates it ([enum_sound_on]) on every string it
+   asks the real validator about, and its generator feeds case variants of every legal
+   value of every enum-valued field. *)
+Definition scheme_types : list str := [s "apiKey"; s "oauth2"; s "openIdConnect"; s "http"].
+Definition scheme_locations : list str := [[]; s "query"; s "header"; s "cookie"].
+
+Definition enum_claims : list (str * str * list str) :=
+  [ (s "security_schema_type", [], scheme_types);
+    (s "security_schema_in", [], scheme_locations) ].
+
+Definition claim_for (n p : str) : option (list str) :=
+  match find (fun c => str_eqb (fst (fst c)) n && str_eqb (snd (fst c)) p) enum_claims with
+  | Some c => Some (snd c)
+  | None => None
+  end.
+
+(* the claim, on a finite set of strings *)
+Definition enum_sound_on (o : oracle) (vals : list str) : bool :=
+  forallb (fun c => forallb (fun v => implb (o (fst (fst c)) (snd (fst c)) v) (mem str_eqb v (snd c))) vals)
+          enum_claims.
+
+(* every value passing [a] passes [d], for every oracle that keeps the enum claims *)
 Definition atom_implies (a d : rule) : bool :=
   rule_eqb a d ||
   match a, d with
   | ROneof A, ROneof D => forallb (fun x => mem str_eqb x D) A
   | RMin n, RMin m => N.leb m n
+  | RPred n p, ROneof D =>
+      match claim_for n p with Some A => forallb (fun x => mem str_eqb x D) A | None => false end
   | _, _ => false
   end.
 
@@ -327,8 +357,9 @@ Definition p_scheme (k : str) : list seg := [SField k_openapi_cfg; SElems k_sche
    the OpenAPI section needs a version out of 3.0.0 / 3.1.0, title and version of the API,
    a base URL that is a URL, and the spec output path; a contact e-mail, when given, is an
    e-mail address; a license, when given, has a name; every security scheme has a name
-   starting with a letter, a description, a type out of the four OpenAPI types, a known
-   location and HTTP scheme when given, an URL as OpenID-Connect URL when given; a default
+   starting with a letter, a description, a type out of the four OpenAPI types and, when
+   given, one of the three locations and a known HTTP scheme (all spelled exactly: the value
+   is copied into the document as it stands), an URL as OpenID-Connect URL when given; a default
    security names a scheme and carries a scope list; a glob list, when given, is not empty.
    A missing section shows as its required fields missing (the path crosses [SField]). *)
 Definition declared_schema : schema := [
@@ -347,8 +378,8 @@ Definition declared_schema : schema := [
   D (p_scheme (s "description")) (s "Description") KStr [RRequired];
   D (p_scheme (s "name")) (s "SecurityName") KStr [RRequired; RPred (s "starts_with_letter") []];
   D (p_scheme (s "scheme")) (s "Scheme") KStr [ROmitempty; ROneof http_schemes];
-  D (p_scheme (s "type")) (s "Type") KStr [RRequired; RPred (s "security_schema_type") []];
-  D (p_scheme (s "in")) (s "In") KStr [RPred (s "security_schema_in") []];
+  D (p_scheme (s "type")) (s "Type") KStr [RRequired; ROneof scheme_types];
+  D (p_scheme (s "in")) (s "In") KStr [ROneof scheme_locations];
   D (p_scheme (s "openIdConnectUrl")) (s "OpenIdConnectUrl") KStr [ROmitempty; RPred (s "url") []];
   D [SField k_openapi_cfg; SPtr (s "defaultSecurity"); SField (s "name")] (s "SchemaName") KStr [RRequired];
   D [SField k_openapi_cfg; SPtr (s "defaultSecurity"); SField (s "scopes")] (s "Scopes") KStrs [RNotNil];
@@ -400,7 +431,7 @@ Record world := {
   w_pre : str -> option N;                 (* permission bits of an already existing file *)
   w_umask : N;
   w_files : list (str * list str);         (* project source files and the controllers they declare *)
-  w_glob : list str -> str -> bool;        (* doublestar: is the file matched by one of the globs *)
+  w_glob : str -> str -> bool;             (* doublestar: does ONE glob expression match the file *)
   w_analysis_ok : bool;                    (* the selected sources load, type-check and link *)
   w_spec_ok : bool }.                      (* kin-openapi / libopenapi accept the document *)
 
@@ -458,8 +489,16 @@ Definition globs_of (cfg : jv) : list str :=
   | l => strs_of l
   end.
 
-Definition selected_ctrls (w : world) (cfg : jv) : list str :=
-  flat_map snd (filter (fun f => w_glob w (globs_of cfg) (fst f)) (w_files w)).
+(* initWithGlobs: every expression of the list is expanded on its own and the matched files
+   are collected in one set; a file contributes when SOME expression matches it - whatever
+   the position of that expression in the list and whatever the other expressions matched
+   (in particular other files of the same directory / package) *)
+Definition glob_hit (w : world) (gs : list str) (f : str) : bool := existsb (fun g => w_glob w g f) gs.
+
+Definition selected_files (w : world) (cfg : jv) : list (str * list str) :=
+  filter (fun f => glob_hit w (globs_of cfg) (fst f)) (w_files w).
+
+Definition selected_ctrls (w : world) (cfg : jv) : list str := flat_map snd (selected_files w cfg).
 
 Definition routes_artifact (w : world) (cfg : jv) : artifact :=
   let rc k := str_at [k_routes; k] cfg in
@@ -806,10 +845,8 @@ Definition demo_oracle : oracle := fun name param v =>
                                    match parse_octal_from 0 v with Some n => N.leb n 511 | None => false end end
   else if str_eqb name (s "starts_with_letter") then
     match v with [] => true | c :: _ => N.leb 65 (Byte.to_N c) end
-  else if str_eqb name (s "security_schema_type") then
-    mem str_eqb v [s "apiKey"; s "oauth2"; s "openIdConnect"; s "http"]
-  else if str_eqb name (s "security_schema_in") then
-    mem str_eqb v [[]; s "query"; s "header"; s "cookie"]
+  else if str_eqb name (s "security_schema_type") then mem str_eqb v scheme_types
+  else if str_eqb name (s "security_schema_in") then mem str_eqb v scheme_locations
   else false.
 
 Definition J (x : String.string) : jv := JStr (s x).
@@ -840,7 +877,7 @@ Definition demo_world : world :=
      w_umask := 18%N;
      w_files := [ (s "ctl/main.controller.go", [s "MainController"]);
                   (s "ctl/decoy.controller.go", [s "DecoyController"]) ];
-     w_glob := fun gs f => mem str_eqb (s "./" ++ f) gs;
+     w_glob := fun g f => str_eqb (s "./" ++ f) g;
      w_analysis_ok := true; w_spec_ok := true |}.
 
 (* the cross-field witness: an apiKey scheme without location and field name *)
@@ -848,3 +885,19 @@ Definition demo_bad_scheme : jv :=
   O [("description", J "API key"); ("name", J "sec1"); ("type", J "apiKey")]%string.
 Definition demo_cfg_bad_scheme : jv :=
   demo_cfg_with "echo" "3.1.0" "0600" "https://api.example.com" "me@example.com" [demo_bad_scheme].
+
+(* a validator that compares the security scheme type without regard to case (what the
+   enum claim excludes), otherwise [demo_oracle]; and the document it lets through *)
+Definition lower_byte (b : byte) : byte :=
+  let n := Byte.to_N b in
+  if N.leb 65 n && N.leb n 90 then match Byte.of_N (n + 32) with Some c => c | None => b end else b.
+Definition lax_oracle : oracle := fun name param v =>
+  if str_eqb name (s "security_schema_type")
+  then mem str_eqb (map lower_byte v) (map (map lower_byte) scheme_types)
+  else demo_oracle name param v.
+Definition demo_case_scheme : jv :=
+  O [("description", J "API key"); ("name", J "sec1"); ("fieldName", J "x-key");
+     ("type", J "ApiKey"); ("in", J "header")]%string.
+Definition demo_cfg_case_variant : jv :=
+  demo_cfg_with "echo" "3.1.0" "0600" "https://api.example.com" "me@example.com" [demo_case_scheme].
+
